@@ -117,9 +117,12 @@ def check(ctx):
                     bad = True
                     break
                 # log posterior = logPhi((t-mu)/sd) + log prior; gradient = derivative
+                # (the surrogate's own prediction in this phase: its agreement with the library was checked just above; using the
+                #  library's numbers here would amplify their 1e-7 agreement by |z| in the deep tail)
+                mu_s, var_s = float(np.ravel(mu_f)[0]), float(np.ravel(var_f)[0])
                 lp = float(np.ravel(post.logpdf(x))[0])
-                exp = float(ss.norm.logcdf((thr - mu) / math.sqrt(var))) + float(post.prior.logpdf(x)[0])
-                if not math.isclose(lp, exp, rel_tol=1e-7, abs_tol=1e-9):
+                exp = float(ss.norm.logcdf((thr - mu_s) / math.sqrt(var_s))) + float(post.prior.logpdf(x)[0])
+                if not math.isclose(lp, exp, rel_tol=1e-9, abs_tol=1e-9):
                     ctx.fail_input(where, 'log posterior %r differs from logPhi((threshold-mean)/sd) + log prior = %r' % (lp, exp), exp, lp)
                     bad = True
                     break
@@ -135,8 +138,8 @@ def check(ctx):
                     ctx.fail_input(where, 'gradient_logpdf %s is not the derivative of logpdf %s' % (g.tolist(), num.tolist()), num.tolist(), g.tolist())
                     bad = True
                     break
-                z = (thr - mu) / math.sqrt(var)
-                reqs.append(dict(op='C10.grad', t=thr, mean=mu, var=var, gradMean=[float(v) for v in gmu], gradVar=[float(v) for v in gvar],
+                z = (thr - mu_s) / math.sqrt(var_s)
+                reqs.append(dict(op='C10.grad', t=thr, mean=mu_s, var=var_s, gradMean=[float(v) for v in np.ravel(gmu_f)], gradVar=[float(v) for v in np.ravel(gvar_f)],
                                  logpdf=float(ss.norm.logpdf(z)), logcdf=float(ss.norm.logcdf(z))))
                 meta.append(('grad', where, g.tolist()))
                 reqs.append(dict(op='C10.r2', x=x.tolist(), X=gp.X.tolist()))
